@@ -30,3 +30,9 @@ native_unit("lagrange_native", "winterfell", "winterfell", "native/lagrange_boun
             "with a Lagrange-kernel column, 1..3 auxiliary random elements and an absorbed public input: every honest proof of the grid is accepted after a serialization round trip that leaves it unchanged (prover and verifier draw GKR randomness, auxiliary randomness and all later challenges in the same order); proofs are refused for another public input; every tested damaged proof (bit flips, byte extremes, truncations) is refused and nothing panics; both sides' recorded coin operations equal the required transcript (absorbed values read back from the proof, identical challenge values); proofs crafted by a malicious prover for query counts at and beyond the LDE domain size are answered without a panic; structured damage (every length-prefixed component of commitments / queries / OOD frame / FRI proof shortened, lengthened, emptied; FRI layers removed, duplicated, swapped; GKR proof added, removed, resized; Lagrange frame row count changed; unique-query count off by one with and without extra rows) is refused without a panic",
             "NATIVE EXECUTION, not a proof: 64-bit field x {no, quadratic, cubic} extension x 5 (trace length, FRI schedule) pairs x aux rands {1,2,3} x 2 (queries, blowup, grinding) sets x {Blake3_256, Rp64_256}; 3 trace shapes (single-segment, auxiliary, auxiliary + Lagrange kernel); damage on the first 10 resp. 2 configurations; 36 crafted option sets: every 5th bit (quick) / every bit (thorough)",
             timeout=2400)
+
+native_unit("composition_native", "winter-prover", "prover", "native/composition_bounded.rs", ["C17"],
+            ["DefaultConstraintEvaluator::{new, evaluate}", "evaluator::boundary (small and large value polynomials)", "evaluator::periodic_table", "ConstraintEvaluationTable::combine", "CompositionPoly::{new, evaluate_at}", "Air::get_boundary_constraints / get_transition_constraints", "StarkDomain::new"],
+            "the composition polynomial evaluations produced by the real evaluator equal, at the points of the constraint evaluation domain, the random linear combination of every transition constraint over the transition divisor plus every boundary constraint over its divisor computed directly from the trace polynomials; the committed columns recombine to the same value at out-of-domain points",
+            "NATIVE EXECUTION, not a proof: one AIR (3 columns, 3 constraints with periodic columns of cycle 2 / 4 / 8, single + periodic + short and long sequence assertions with non-zero first steps) x trace lengths 16, 64 (every domain point), 512 (every 8th point) x LDE blowup 8, 16 (constraint blowup 4) x f128, f128 quadratic, f64, f64 quadratic, f64 cubic; 4 out-of-domain points each; built without debug assertions (the prover's debug-only degree validation refuses periodic trace columns), with overflow checks",
+            timeout=2400, debug_assertions=False)
